@@ -2382,3 +2382,84 @@ Proof.
 Qed.
 
 End fail.
+
+(** * 6. C07 after store writes that failed *)
+Section livefail.
+Variables (drift : Z) (tv : hdr -> hdr -> tvres) (tail : N) (ch : N -> hdr).
+Hypothesis Hch : forall n, h_height (ch n) = n.
+
+Notation arun := (arun drift tv).
+Notation xstep := (xstep drift tv).
+Notation xrun := (xrun drift tv).
+Notation Live := (Live tail ch).
+
+Definition hevx (x : xevent) : Prop := match x with XE e => hev1 ch e | _ => True end.
+
+Lemma Live_xstep c x : Live c -> wf_x tail x -> hevx x -> Live (xstep c x).
+Proof.
+  intros HL Hw He. destruct x as [e| |i]; cbn [Syncer.xstep].
+  - apply (Live_astep drift tv tail ch); assumption.
+  - destruct HL as [HA HT [Hg1 Hg2] Hnp Hto].
+    destruct (Ainv_l_fail tail c HA HT) as (HA' & HT' & _ & _).
+    destruct (l_fail_frame c) as (Es & Ec & Ep & Et & _ & _ & _ & Hcase).
+    assert (Hl : c_loop (l_fail c) = c_loop c \/ c_loop (l_fail c) = LIdle) by (destruct Hcase as [[H _]|(k & hs & _ & H & _)]; auto).
+    constructor; [exact HA'|exact HT'| | |].
+    + split; [|rewrite Et; exact Hg2]. intros y Hy. apply Hg1. unfold all_hdrs in *. rewrite Es, Ec, Ep, Et in Hy.
+      destruct Hl as [El|El]; rewrite El in Hy; [exact Hy|]. cbn [loop_hdrs app] in Hy.
+      apply in_app_or in Hy. apply in_or_app. destruct Hy as [Hy|Hy]; [left; exact Hy|right].
+      destruct Hy as [Hy|Hy]; [left; exact Hy|right]. apply in_app_or in Hy. apply in_or_app. destruct Hy as [Hy|Hy]; [left; exact Hy|right].
+      apply in_or_app. right. exact Hy.
+    + destruct Hl as [El|El]; rewrite El; [exact Hnp|discriminate].
+    + unfold to_ok. destruct Hl as [El|El]; rewrite El; [exact Hto|intros t []].
+  - destruct HL as [HA HT [Hg1 Hg2] Hnp Hto].
+    destruct (Ainv_t_fail tail i c HA HT) as (HA' & HT' & _ & _).
+    destruct (t_fail_cases i c) as [E|(m & res & x & rest & En & E)]; rewrite E in *; [constructor; try assumption; split; assumption|].
+    destruct (set_thr_frame i (TRun m res x SL3 rest) c) as (Es & Ec & Ep & El).
+    constructor; [exact HA'|exact HT'| | |].
+    + split.
+      * intros y Hy. apply Hg1. unfold all_hdrs in *. rewrite Es, Ec, Ep, El in Hy.
+        apply in_app_or in Hy. apply in_or_app. destruct Hy as [Hy|Hy]; [left; exact Hy|right].
+        destruct Hy as [Hy|Hy]; [left; exact Hy|right]. apply in_app_or in Hy. apply in_or_app. destruct Hy as [Hy|Hy]; [left; exact Hy|right].
+        apply in_app_or in Hy. apply in_or_app. destruct Hy as [Hy|Hy]; [left; exact Hy|right].
+        unfold set_thr in Hy. cbn in Hy. apply flat_upd_g in Hy. destruct Hy as [Hy|Hy]; [|exact Hy].
+        apply in_flat_map. exists (TRun m res x SL0 rest). split; [eapply nth_error_In; exact En|exact Hy].
+      * intros y Hy. unfold set_thr in Hy. cbn in Hy. apply flat_upd_g in Hy. destruct Hy as [[]|Hy]. apply Hg2. exact Hy.
+    + rewrite El. exact Hnp.
+    + unfold to_ok. rewrite El. exact Hto.
+Qed.
+
+Theorem Live_xrun xs : forall c, Live c -> Forall (fun x => wf_x tail x /\ hevx x) xs -> Live (xrun c xs).
+Proof.
+  induction xs as [|x xs IH]; intros c HL Hf; [exact HL|]. inversion Hf as [|? ? [Hw He] Hr]; subst.
+  cbn [Syncer.xrun fold_left]. apply IH; [apply Live_xstep; assumption|exact Hr].
+Qed.
+
+(** C07 for interleaved learner calls, after a history in which store writes failed at will *)
+Theorem reaches_target_after_write_failures (a : hdr) (l : list hdr) (xs : list xevent) (ds : list event) :
+  consec (a :: l) -> Forall (good ch) (a :: l) -> h_height a = tail ->
+  Forall (fun x => wf_x tail x /\ hevx x) xs ->
+  let c0 := xrun (init_cfg tail (a :: l)) xs in
+  drain drift tv ch c0 ds ->
+  let c' := arun c0 ds in
+  let D := Dof c0 in let E := Eof c0 in
+  (length ds + mu D E c' <= mu D E c0)%nat /\
+  (ss_err (c_state c') = None \/ ss_err (c_state c') = ss_err (c_state c0)) /\
+  (stuck c' ->
+     all_quiet c' /\
+     (ss_err (c_state c') = None ->
+        reached ch (Lh c') c' /\ h_height (local_head c0) <= Lh c' /\
+        forall y, In y (flat_map twork (c_thr c0)) -> h_height y <= Lh c')).
+Proof.
+  intros Hc Hg Ha Hxs c0 Hd c' D E.
+  pose proof (Live_xrun xs _ (Live_init tail ch a l Hc Hg Ha) Hxs) as HL0. fold c0 in HL0.
+  destruct (drain_bound drift tv tail ch Hch D E ds c0 HL0 (bnd_of c0) Hd) as (Hb & _ & HL' & Herr). fold c' in Hb, HL', Herr.
+  split; [exact Hb|]. split; [exact Herr|]. intros Hst.
+  pose proof (stuck_all_quiet tail ch c' HL' Hst) as Hq. split; [exact Hq|]. intros He.
+  assert (Hw : Forall (wf_event tail) ds).
+  { clear -Hd Hch. revert Hd. generalize c0. induction ds as [|e r IH]; intros c1 Hd; [constructor|].
+    destruct Hd as (_ & Hs & Hd). constructor; [apply (dstep_wf tv tail ch Hch c1 e Hs)|apply (IH _ Hd)]. }
+  destruct (Ainv_arun drift tv tail ds c0 (lv_a _ _ c0 HL0) (lv_t _ _ c0 HL0) Hw) as (_ & _ & Hm & Hcov). fold c' in Hm, Hcov.
+  apply (quiet_reached tail ch c0 c' HL' Hq He Hm Hcov).
+Qed.
+
+End livefail.
